@@ -1047,17 +1047,242 @@ def check_closure(ctx, ex: Explorer):
         private = sorted(c for c in graph[q] if c in reach and fns[c].name.startswith("_") and not fns[c].name.startswith("__"))
         ctx.require(not private, f"view.py: {q} is not exercised by the modelled operations but calls the private state-changing helper(s) {private}: not modelled")
     ctx.ok("R43.2", f"closure: all {len(writers)} functions that write {sorted(tracked)} were executed by the exploration; the other functions reach them only through the explored public operations")
-    # nobody else reaches into the view
-    priv = "|".join(sorted(re.escape(n) for n in (names["view"], names["store"]) if n.startswith("_")))
-    ctx.require(priv, "the view container / store fields are not private")
-    pat = re.compile(rf"\bshow_marked\s*=[^=]|\.(?:{priv})\b|view\.filter\s*=[^=]")
+    # nobody else reaches into the view: an access counts only when its RECEIVER can be an object of view.py (View / Focus / Settings ...);
+    # another class's private attribute that happens to carry the same name (`self._store` of an unrelated class) is not the view's
+    private = {n for n in (names["view"], names["store"]) if n.startswith("_")}
+    ctx.require(private, "the view container / store fields are not private")
+    public = {"show_marked", "filter"}
+    coarse = re.compile(r"\.(?:" + "|".join(sorted(re.escape(n) for n in private | public)) + r")\b")
+    recv = _Receivers(ctx.model)
     for p in sorted((ctx.model.repo / "mitmproxy").rglob("*.py")):
         rel = p.relative_to(ctx.model.repo).as_posix()
         if rel == F or rel.startswith("mitmproxy/contrib/"):
             continue
-        if pat.search(ctx.model.source(rel)):
-            raise AnalysisError(f"{rel} accesses View internals ({names['view']} / {names['store']} / show_marked / filter); not modelled")
+        if not coarse.search(ctx.model.source(rel)):
+            continue
+        mod = ctx.model.module(rel)
+        for n in ast.walk(mod.tree):
+            if not isinstance(n, ast.Attribute):
+                continue
+            if n.attr in private:
+                # the discovered private fields: any access, unless the receiver provably is no object of view.py
+                hit = recv.kind(n.value, mod) != "no"
+            elif n.attr in public and isinstance(n.ctx, (ast.Store, ast.Del)):
+                # show_marked / filter are ordinary attribute names of many classes: a write counts when the receiver is (or may be, for
+                # show_marked) a view object - `ctx.master.view.filter = ..`, `view.filter = ..`, a parameter annotated View, an alias of these
+                k = recv.kind(n.value, mod)
+                hit = k == "yes" or (k == "unknown" and n.attr == "show_marked")
+            else:
+                hit = False
+            if hit:
+                raise AnalysisError(f"{rel} accesses View internals ({names['view']} / {names['store']} / show_marked / filter): {ast.unparse(n)} (line {n.lineno}); not modelled")
     ctx.ok("R43.1", "no module other than view.py writes show_marked / filter or touches the view container / the store")
+
+
+class _Receivers:
+    """Can an expression of another module denote an object of view.py?  'yes' (positive evidence: reached through an attribute / name
+    spelled ``view``, constructed from / annotated with a class of view.py or a subclass, ``self`` of such a class), 'no' (provably
+    something else: ``self`` / ``cls`` of a class unrelated to view.py, a value constructed from / annotated with an unrelated repository
+    class or a builtin type, a literal), else 'unknown'."""
+
+    BUILTIN_TYPES = {"dict", "list", "set", "tuple", "str", "bytes", "int", "float", "bool", "bytearray", "frozenset", "object", "type", "None"}
+
+    def __init__(self, model):
+        self.model = model
+        vmod = model.module(F)
+        self.view_classes = {(F, q) for q, n in vmod.defs().items() if isinstance(n, ast.ClassDef)}
+        # ancestors of view.py's classes inside the repository: their methods run on view objects too
+        self.related = set(self.view_classes)
+        for _, q in sorted(self.view_classes):
+            for m, c in model.mro(F, q):
+                self.related.add((m.rel, getattr(c, "_qual", c.name)))
+
+    def class_kind(self, mod, cls) -> str:
+        qual = getattr(cls, "_qual", cls.name)
+        if (mod.rel, qual) in self.related:
+            return "yes"
+        try:
+            mro = self.model.mro(mod.rel, qual)
+        except AnalysisError:
+            return "unknown"
+        if any((m.rel, getattr(c, "_qual", c.name)) in self.view_classes for m, c in mro):
+            return "yes"
+        return "no"
+
+    def type_kind(self, ann, mod) -> str:
+        """kind of the values a type expression (annotation / constructor) admits"""
+        if ann is None:
+            return "unknown"
+        if isinstance(ann, ast.Constant) and isinstance(ann.value, str):
+            try:
+                ann = ast.parse(ann.value, mode="eval").body
+            except SyntaxError:
+                return "unknown"
+        if isinstance(ann, ast.Constant) and ann.value is None:
+            return "no"
+        if isinstance(ann, ast.BinOp) and isinstance(ann.op, ast.BitOr):
+            return self.join(self.type_kind(ann.left, mod), self.type_kind(ann.right, mod))
+        if isinstance(ann, ast.Subscript):
+            head = ann.value.attr if isinstance(ann.value, ast.Attribute) else getattr(ann.value, "id", "")
+            if head in ("Optional", "Union"):
+                parts = ann.slice.elts if isinstance(ann.slice, ast.Tuple) else [ann.slice]
+                out = "no"
+                for p_ in parts:
+                    out = self.join(out, self.type_kind(p_, mod))
+                return out
+            return self.type_kind(ann.value, mod)
+        if isinstance(ann, (ast.Name, ast.Attribute)):
+            r = self.model.resolve_name(mod, ann)
+            if r is not None and isinstance(r[1], ast.ClassDef):
+                return self.class_kind(r[0], r[1])
+            if isinstance(ann, ast.Name) and ann.id in self.BUILTIN_TYPES and ann.id not in mod.imports and mod.get(ann.id) is None:
+                return "no"
+        return "unknown"
+
+    @staticmethod
+    def join(a, b):
+        if "yes" in (a, b):
+            return "yes"
+        return "no" if a == b == "no" else "unknown"
+
+    def kind(self, e, mod, depth=0) -> str:
+        if depth > 6:
+            return "unknown"
+        if isinstance(e, (ast.Constant, ast.Dict, ast.List, ast.Set, ast.Tuple, ast.ListComp, ast.DictComp, ast.SetComp, ast.GeneratorExp, ast.JoinedStr, ast.Lambda, ast.Compare)):
+            return "no"
+        if isinstance(e, ast.NamedExpr):
+            return self.kind(e.value, mod, depth + 1)
+        if isinstance(e, ast.IfExp):
+            return self.join(self.kind(e.body, mod, depth + 1), self.kind(e.orelse, mod, depth + 1))
+        if isinstance(e, ast.BoolOp):
+            out = "no"
+            for v in e.values:
+                out = self.join(out, self.kind(v, mod, depth + 1))
+            return out
+        if isinstance(e, ast.Await):
+            return "unknown"
+        if isinstance(e, ast.Call):
+            if isinstance(e.func, (ast.Name, ast.Attribute)):
+                k = self.type_kind(e.func, mod)  # a constructor call
+                if k != "unknown":
+                    return k
+                if isinstance(e.func, ast.Name) and e.func.id == "cast" and len(e.args) == 2:
+                    return self.type_kind(e.args[0], mod)
+                r = self.model.resolve_name(mod, e.func)
+                if r is not None and isinstance(r[1], (ast.FunctionDef, ast.AsyncFunctionDef)) and r[1].returns is not None:
+                    return self.type_kind(r[1].returns, r[0])
+            return "unknown"
+        if isinstance(e, ast.Attribute):
+            if e.attr == "view":
+                return "yes"  # ctx.master.view / self.master.view / self.view: the View addon by the repository's naming
+            base = e.value
+            fn, cls = self.scope(e)
+            if isinstance(base, ast.Name) and cls is not None and fn is not None and self.is_self(base.id, fn, cls):
+                # an attribute of the enclosing class's own instances: class-level annotation / every `self.attr = value` in the class
+                vals, anns = [], []
+                for n in ast.walk(cls):
+                    if isinstance(n, ast.AnnAssign) and ((isinstance(n.target, ast.Name) and n._parent is cls) or isinstance(n.target, ast.Attribute)) \
+                            and (n.target.id if isinstance(n.target, ast.Name) else n.target.attr) == e.attr:
+                        anns.append(n.annotation)
+                        if n.value is not None and isinstance(n.target, ast.Attribute):
+                            vals.append(n.value)
+                    elif isinstance(n, ast.Assign):
+                        for t in n.targets:
+                            if isinstance(t, ast.Attribute) and t.attr == e.attr and isinstance(t.value, ast.Name) and t.value.id == base.id:
+                                vals.append(n.value)
+                            elif isinstance(t, (ast.Tuple, ast.List)) and any(isinstance(x, ast.Attribute) and x.attr == e.attr for x in t.elts):
+                                return "unknown"
+                    elif isinstance(n, ast.AugAssign) and isinstance(n.target, ast.Attribute) and n.target.attr == e.attr:
+                        return "unknown"
+                if anns:
+                    out = "no"
+                    for a in anns:
+                        out = self.join(out, self.type_kind(a, mod))
+                    return out
+                if vals:
+                    out = "no"
+                    for v in vals:
+                        out = self.join(out, self.kind(v, mod, depth + 1))
+                    return out
+            return "unknown"
+        if isinstance(e, ast.Name):
+            fn, cls = self.scope(e)
+            k = None
+            while fn is not None and k is None:
+                k = self.local_kind(e.id, fn, cls, mod, depth)  # None: not bound in this function - look in the enclosing one
+                fn, cls = self.scope(fn)
+            if k is None:
+                k = self.module_name_kind(e.id, mod, depth)
+            return "yes" if k == "unknown" and e.id == "view" else k
+        return "unknown"
+
+    def local_kind(self, ident, fn, cls, mod, depth):
+        if cls is not None and self.is_self(ident, fn, cls):
+            return self.class_kind(mod, cls)
+        a = fn.args
+        for p_ in a.posonlyargs + a.args + a.kwonlyargs + [x for x in (a.vararg, a.kwarg) if x is not None]:
+            if p_.arg == ident:
+                return self.type_kind(p_.annotation, mod)
+        vals = []
+        for n in own_nodes(fn):
+            if isinstance(n, ast.Assign):
+                for t in n.targets:
+                    if isinstance(t, ast.Name) and t.id == ident:
+                        vals.append(n.value)
+                    elif any(isinstance(x, ast.Name) and x.id == ident and isinstance(x.ctx, ast.Store) for x in ast.walk(t)):
+                        vals.append(None)
+            elif isinstance(n, ast.AnnAssign) and isinstance(n.target, ast.Name) and n.target.id == ident:
+                vals.append(("ann", n.annotation))
+            elif isinstance(n, ast.NamedExpr) and n.target.id == ident:
+                vals.append(n.value)
+            elif isinstance(n, ast.Name) and n.id == ident and isinstance(n.ctx, ast.Store) and not isinstance(getattr(n, "_parent", None), (ast.Assign, ast.AnnAssign, ast.NamedExpr, ast.Tuple, ast.List)):
+                vals.append(None)  # for / with / comprehension targets: not followed
+            elif isinstance(n, ast.Name) and n.id == ident and isinstance(n.ctx, ast.Store) and isinstance(getattr(n, "_parent", None), (ast.Tuple, ast.List)) \
+                    and not isinstance(getattr(n._parent, "_parent", None), ast.Assign):
+                vals.append(None)
+            elif isinstance(n, ast.ExceptHandler) and n.name == ident:
+                return "no"
+        if not vals:
+            return None
+        out = "no"
+        for v in vals:
+            if v is None:
+                k = "unknown"
+            elif isinstance(v, tuple):
+                k = self.type_kind(v[1], mod)
+            else:
+                k = self.kind(v, mod, depth + 1)
+            out = self.join(out, k)
+        return out
+
+    def module_name_kind(self, name, mod, depth):
+        vals = mod.assigns(name)
+        if not vals:
+            return "unknown"
+        out = "no"
+        for v in vals:
+            out = self.join(out, self.kind(v, mod, depth + 1))
+        return out
+
+    @staticmethod
+    def scope(node):
+        """(innermost enclosing function, the class it is a method of) of a node"""
+        n = getattr(node, "_parent", None)
+        while n is not None and not isinstance(n, (ast.FunctionDef, ast.AsyncFunctionDef, ast.ClassDef)):
+            n = getattr(n, "_parent", None)
+        if n is None or isinstance(n, ast.ClassDef):
+            return None, None
+        c = getattr(n, "_parent", None)
+        return n, c if isinstance(c, ast.ClassDef) else None
+
+    @staticmethod
+    def is_self(name, fn, cls) -> bool:
+        """is ``name`` the instance (or class) parameter of the method ``fn`` of ``cls``, never rebound in it?"""
+        decs = {d.attr if isinstance(d, ast.Attribute) else getattr(d, "id", "") for d in fn.decorator_list}
+        a = fn.args.posonlyargs + fn.args.args
+        if "staticmethod" in decs or not a or a[0].arg != name:
+            return False
+        return not any(isinstance(n, ast.Name) and n.id == name and isinstance(n.ctx, (ast.Store, ast.Del)) for n in own_nodes(fn))
 
 
 # ---------------------------------------------------------------------------------------------------
